@@ -12,9 +12,9 @@ static verif::Result exec(const Script& sc, const verif::Config& cfg)
     verif::emit("cfg latch " + std::to_string(start));
     {
         Latch L(start);
-        verif::reg_name(&L.mtx, "mtx");
-        verif::reg_name(&L.cv, "cv");
-        verif::reg_name(&L.counter_, "counter");
+        VERIF_NAME(L, mtx, "mtx");
+        VERIF_NAME(L, cv, "cv");
+        VERIF_NAME(L, counter_, "counter");
         std::vector<std::function<void()>> bodies;
         for (auto& ops : sc.threads) {
             bodies.push_back([&L, ops] {
